@@ -243,11 +243,12 @@ def check_index_methods(case, rec):
             mapping = {k: v for k, v in case["mapping"]}
             if f3:
                 mapping.pop(ix.common, None)  # the common value may be absent from a to_array mapping
+            a_mapping = arg(mapping)
             with libcall("to_array"):
                 ix.to_array()
                 ix.to_array(dtype=numpy.int64)
                 ix.to_array(mapping=mapping)
-            unchanged("to_array(mapping)", mapping=arg(mapping))
+            unchanged("to_array(mapping)", mapping=a_mapping)
             mask = numpy.array(case["mask"], dtype=bool)
             a_mask = arg(mask)
             with libcall("filtered"):
